@@ -315,7 +315,9 @@ func (r *scopeRegistry) purge() {
 	for _, subscopeBucket := range r.subscopes {
 		subscopeBucket.mu.Lock()
 		for k, s := range subscopeBucket.s {
-			_ = s.Close()
+			if !s.root { // the root is registered in every shard; it is the one being closed
+				_ = s.Close()
+			}
 			s.clearMetrics()
 			delete(subscopeBucket.s, k)
 		}
